@@ -155,7 +155,8 @@ class ForAllEval(EvalContract):
 
 
 class ForAllReq(ReqModel):
-    """ForAll._required_variables_from_child_: the parent's answer plus the universal variable(s)"""
+    """ForAll._required_variables_from_child_: the parent's answer plus the universal variable(s) plus every variable of the
+    condition (the per-value results are compared by all of them)"""
     qual = 'symbolic:ForAll._required_variables_from_child_'
     cls = 'ForAll'
     props = ('C10',)
@@ -164,6 +165,8 @@ class ForAllReq(ReqModel):
     def getattr(self, eng, st, recv, name):
         if isinstance(recv, ZV) and recv.t.eq(self.n) and name == 'variable':
             return [(st, ZV(Z.f_left(self.n), 'node'))]
+        if isinstance(recv, ZV) and recv.t.eq(self.n) and name == 'condition':
+            return [(st, ZV(Z.f_right(self.n), 'node'))]
         return super().getattr(eng, st, recv, name)
 
     def call(self, eng, st, f, args, kwargs, node):
@@ -188,6 +191,9 @@ class ForAllReq(ReqModel):
         if o.sig == RETURN and isinstance(o.val, Obj) and o.val.kind == 'idset':
             res = st.ghost['idsets'][o.val.data['ref']]
             eng.oblige(st, "C10/req/contains-the-universal-variable", subset(UV(Z.f_left(self.n)), res))
+            # the results are intersected across the universal values by the bindings of every other variable of the condition
+            # (selected or not): none of them may be dropped from what is kept distinct below
+            eng.oblige(st, "C10/req/contains-every-variable-of-the-condition", subset(UV(Z.f_right(self.n)), res))
 
 
 CONTRACTS = [ForAllEval, ForAllReq]
